@@ -165,6 +165,7 @@ var c20Keys = []string{"a", "b"}
 var c20Prefixes = []string{"", "\n", "x\n\ny ", "\n\n\n"}
 
 func runC20(c *ev.Ctx) {
+	defer sizeSweep(c, "C20")
 	nodes, maxGapsFull := 4, 8
 	if c.Thorough() {
 		nodes, maxGapsFull = 5, 12
